@@ -111,7 +111,15 @@ class Flow(object):
                     return MergedDict(snames)
                 else:
                     outer_names = set(snames).difference(self.scope.locals)
-                    return {n: snames[n] for n in outer_names}
+                    names = {n: snames[n] for n in outer_names}
+                    if self.scope.globals and pscope is not self.scope.top:
+                        # declared global: enclosing functions are skipped
+                        gnames = self.scope.top.names
+                        for n in self.scope.globals:
+                            names.pop(n, None)
+                            if n in gnames:
+                                names[n] = gnames[n]
+                    return names
             else:
                 return {}
 
